@@ -79,7 +79,7 @@ def hdrTable : List (String × List (String × FSpec)) :=
     ("IndexExpr", [("X", .sub .expr), ("Index", .sub .expr)]),
     ("IndexListExpr", [("X", .sub .expr), ("Indices", .subs .expr)]),
     ("SliceExpr", [("X", .sub .expr), ("Low", .sub .expr), ("High", .sub .expr),
-                   ("Max", .sub .expr), ("Slice3", .atom)]),
+                   ("Max", .sub .expr)]),   -- go/printer prints 3 indices iff Max ≠ nil, not from Slice3
     ("TypeAssertExpr", [("X", .sub .expr), ("Type", .sub .expr)]),
     ("CallExpr", [("Fun", .sub .expr), ("Args", .subs .expr), ("Ellipsis", .flag)]),
     ("StarExpr", [("X", .sub .expr)]),
